@@ -118,6 +118,59 @@ CHECKS["C06"] = dict(
          "the watchdog), session usable afterwards unless BYE.",
     note=TB + "The outcome table of command() is a hand model compared with the real method driven by stub handlers; 'promptly' is "
          "measured under the virtual clock (timers free to fire); concurrency between sessions is C10's.", ref="6/C06")
+CHECKS["C10"] = dict(
+    technique="Coq proofs (admission relation sound for declared footprints; commuting steps => interleaving = serial, n commands; hold-one-mailbox discipline => no deadlock) + seeded schedule exploration with a linearizability oracle evaluated in Coq",
+    text="PARTIAL. Theorems: would_conflict (hand model, compared exhaustively with Mailbox.would_conflict) never admits a command "
+         "whose declared footprint clashes with a running one (one asymmetric FETCH case excluded and exhibited); if steps of "
+         "different commands commute, every interleaving of any number of commands equals their serial execution; commands that "
+         "never ask for a mailbox while holding one (single-mailbox commands, COPY, MOVE as copy()/do_move() queue them) cannot "
+         "deadlock, with mutual exclusion preserved. On the implementation: after generated histories 2-3 sessions issue commands "
+         "together under seeded perturbation of every I/O completion; all must complete (never by the watchdog) and results + "
+         "final contents must equal SOME order of the commands' documented steps in the proved sequential model.",
+    note=TB + "Assumed: asyncio eventually runs every enabled step; command bodies have the declared footprints; threads appear as "
+         "completion events; the schedule space is sampled (seeded), not enumerated.", ref="6/C10")
+CHECKS["C14"] = dict(
+    technique="Coq proof by structural induction over the RFC 3501 search-key AST (evaluator mirroring parse.py desugaring, IMAPSearch._match_* and the Mailbox.search loop, against a denotational semantics) + differential correspondence on real SEARCH/UID SEARCH commands + metamorphic laws",
+    text="Theorems (every program of any nesting depth, every mailbox, no side conditions): the evaluator returns exactly the "
+         "ascending sequence numbers of the messages satisfying the denotation; NOT is complement, OR is union, lists are "
+         "intersection; NEW/OLD/UN* are their combinations; set keys address Spec/SetSem.denote; UID SEARCH is the same list "
+         "mapped through the UID table. Tied to search.py, parse.py, mbox.py by running generated programs as real commands and "
+         "comparing, inside Coq, with the model and the denotation evaluated over the implementation's own FETCH answers.",
+    note=TB + "Modelled not verified: Python's email package (header fields, decoding, msg_as_string, parsedate: supplied from the "
+         "server's own FETCH output); str.lower as ASCII folding; set matchers and parser desugaring are hand-mirrored and tied by "
+         "correspondence; CHARSET and non-ASCII strings not exercised; keyword comparison by exact spelling.", ref="6/C14")
+CHECKS["C19"] = dict(
+    technique="Coq proof over a byte-level model of the framing loops (induction over command and literal lists, loop invariant over all streams, round-trip) + differential correspondence against the real asyncio loops under exhaustive and random segmentations",
+    text="Theorems (all streams made of commands with any (non-)synchronising literals, blank lines, over-limit literals/commands; "
+         "all limits): the front-end model hands on exactly the denoted commands, sends + exactly for synchronising literals, one "
+         "BAD per refusal, restarts cleanly after every refusal; every message handed on is within MAX_INPUT_SIZE; deframe o frame "
+         "= id; the response relay is the identity on CRLF-terminated chunks of any length. Tied on every run: IMAPClient.start, "
+         "message(), IMAPClientProxy.run, msgs_to_client (both servers), POP3Client.start run on generated streams under all "
+         "segmentations into <=3/4 reads (short) and byte-by-byte/random ones (long), every prefix observation compared with the "
+         "model in Coq; regex text, MAX_INPUT_SIZE, terminators and reader limits pinned.",
+    note=TB + "Modelled not verified: asyncio.StreamReader.readuntil/readexactly/read (segmentation independence is measured, not "
+         "proved); bytes.rstrip; re; int()'s 4300-digit limit. MAX_INPUT_SIZE is lowered on the modules for reachability.", ref="6/C19")
+CHECKS["C16"] = dict(
+    technique="Coq algebraic laws of the data-item algebra over an oracle rendering (for all messages / byte lists / ranges) + differential correspondence at function level and end to end with oracle measurement",
+    text="Theorems, for every message and every pair hdr/body with hdr ending in CRLF, every section and every <o.n>: RFC822.SIZE "
+         "= |BODY[]|; RFC822* = BODY[...] counterparts; a partial is exactly that slice; BODY[HEADER]++BODY[TEXT] = BODY[] iff the "
+         "body is non-empty (empty body refuted, known finding); every literal count equals its data length; items end in CRLF. "
+         "Tie on every run: real tails of FetchAtt.body / msg_as_bytes / get_msg_size and RFC822*/partial handling compared with "
+         "the model inside Coq; witness + fixture + generated MIME messages APPENDed and fetched through a real session, every "
+         "equation evaluated on the real literals, repeat fetch and COPY compared octet for octet, APPEND fidelity measured.",
+    note=TB + "PARTIAL by nature: Python's email parser/generator is an oracle (hdr/body universally quantified, decomposition "
+         "measured); 'lines end in CRLF' inside the text and APPEND fidelity are measured, not proved. Four known findings.", ref="6/C16")
+CHECKS["C07"] = dict(
+    technique="Coq round-trip/no-raw-specials/balance/completeness theorems of the string encoder and line assemblers against an independent reader + formatter-level and end-to-end differential checks through the real IMAPClientProxy with a strict response parser",
+    text="Theorems for all byte lists: decoding enc_string gives back the value (quoted, or literal with exact count for CR/LF/NUL); "
+         "the quoted form has no raw specials; envelopes, address lists, parameter lists, literals are balanced; LIST/LSUB/STATUS/"
+         "SEARCH/FETCH lines and NO/BAD/exception tagged lines are complete CRLF-terminated responses. Tie: the real encoders and "
+         "tagged-line arms compared with the model inside Coq; every write of the real proxy for hostile messages, mailbox names, "
+         "keywords, ~110 error-path commands and IDLE parsed strictly; decoded ENVELOPE/BODYSTRUCTURE/LIST/LSUB/STATUS strings "
+         "compared with header values, parameters and on-disk names.",
+    note=TB + "Trusted: harness/resptok.py (cross-checked against Spec/RespTok.v each run); Python's email package as oracle for "
+         "header values. Leniencies: 8-bit octets in strings, empty resp-text after a code, three spacing deviations, ']' in "
+         "keywords. Exception arm stated for NUL-free texts.", ref="6/C07")
 NOT_YET = {}
 
 props = [json.loads(l) for l in (V / "properties.jsonl").read_text().splitlines() if l.strip()]
